@@ -2,6 +2,7 @@
 // Oracle: exact = (x*F_from + O_from - O_to) / F_to with F, O from the symbol expander (tools/symx.py, exact rationals,
 // evaluated here in __float128).  The unit/unit-pair/numeric-type part of the quantifier is enumerated, the value is generated.
 #include "engine.hpp"
+#include <set>
 #include "units_iface.hpp"
 #include <fstream>
 
@@ -82,6 +83,49 @@ static Verdict check_coherence(const Case& c) {
 
 static const VfUnitType* utype(int nt, int k) { return nt == 0 ? vf_units_0(k) : nt == 1 ? vf_units_1(k) : vf_units_2(k); }
 
+// C07 over histories: RelatedUnitSystem / ConsistentUnit are pure table lookups, so any interleaving of lookups (repeated arguments, hits after misses,
+// two unit types alternating) must return what a single lookup in a fresh process returned (the introspection dump checked by symx): the system related
+// to a unit is s exactly when the unit is the consistent unit of s and of no other system.
+static Verdict check_lookups(const Case& c) {
+  const int ntypes = vf_units_count_0();
+  const int k[2] = {(int)c.i[0], (int)(c.i[1] % ntypes)};
+  const int nsys = vf_systems_count();
+  auto model_consistent = [&](const VfUnitType* U, int si, int* out) {   // unit value of the consistent unit in system index si
+    auto ci = g_consistent.find(U->name); if (ci == g_consistent.end()) return false;
+    auto cu = ci->second.find(vf_system_name(si)); if (cu == ci->second.end()) return false;
+    *out = cu->second; return true;
+  };
+  std::vector<std::string> trace;
+  int repeats = 0, hits_after_miss = 0; std::set<std::pair<int, int>> seen; bool last_miss[2] = {false, false};
+  const size_t nops = (c.i.size() - 2) / 3;
+  for (size_t j = 0; j < nops; j++) {
+    const int w = (int)(c.i[2 + 3 * j] % 2), kind = (int)(c.i[3 + 3 * j] % 4 == 0 ? 1 : 0), arg = (int)c.i[4 + 3 * j];
+    const VfUnitType* U = utype(0, k[w]);
+    if (kind == 1) {
+      const int si = arg % nsys; int want = 0;
+      if (!model_consistent(U, si, &want)) return Verdict::skip("no-system-data");
+      const int got = U->consistent_unit(vf_system_value(si));
+      trace.push_back(fmt("ConsistentUnit<%s>(%s)", U->name, vf_system_name(si)));
+      if (got != want) { std::string t; for (auto& x : trace) t += x + "; "; return Verdict::fail(fmt("after the lookups [%s] the last one returned unit value %d%s, a single lookup in a fresh process returns %d", t.c_str(), got, got == -2 ? " (it threw)" : "", want)); }
+    } else {
+      const int u = arg % U->n;
+      int want = -1, count = 0;
+      for (int si = 0; si < nsys; si++) { int cu = 0; if (!model_consistent(U, si, &cu)) return Verdict::skip("no-system-data"); if (cu == U->unit_values[u]) { want = vf_system_value(si); count++; } }
+      if (count != 1) want = -1;
+      const int got = U->related_system(u);
+      trace.push_back(fmt("RelatedUnitSystem(%s::%s)", U->name, U->unit_names[u]));
+      if (!seen.insert({k[w], u}).second) repeats++;
+      if (want >= 0 && last_miss[w]) hits_after_miss++;
+      last_miss[w] = want < 0;
+      if (got != want) { std::string t; for (auto& x : trace) t += x + "; "; return Verdict::fail(fmt("after the lookups [%s] the last one returned system %d, but the unit is the consistent unit of %s (expected %d)", t.c_str(), got, count == 1 ? "exactly that one system" : count == 0 ? "no system" : "several systems", want)); }
+    }
+  }
+  Verdict V; V.nontrivial = repeats > 0 && hits_after_miss > 0;
+  V.cls = std::string(repeats ? "repeated-argument" : "no-repeat") + (hits_after_miss ? ";hit-after-miss" : "") + (k[0] != k[1] ? ";two-unit-types" : ";one-unit-type");
+  V.sub_evals = (long)nops; V.sub_nontrivial = V.nontrivial ? (long)nops : 0;
+  return V;
+}
+
 static const double kTolPair = 8.0;   // two legs, <= 3.01 ulp each measured on the pinned tree (DESIGN 2)
 
 // value range: x, the standard-unit intermediate and the result must be normal (with one binade of margin)
@@ -157,30 +201,36 @@ static Verdict check_static(const Case& c) {
   const VfUnitType* U = utype(nt, k);
   auto& fac = g_factors[U->name];
   Verdict v; v.cls = std::string(ntinfo(nt).name) + ";" + real_class(x);
-  long evals = 0, nontriv = 0;
+  long evals = 0, nontriv = 0, neither_standard = 0, bitdiff = 0;
   if (U->standard < 0) return Verdict::fail(fmt("%s: the standard unit is not a declared enumerator", U->name));
-  for (int u = 0; u < U->n; u++) {
-    for (int kind = 0; kind < 3; kind++) {
-      const int a = kind == 1 ? U->standard : u;
-      const int b = kind == 0 ? U->standard : kind == 1 ? u : (u + 1) % U->n;
+  for (int a = 0; a < U->n; a++) {
+    for (int b = 0; b < U->n; b++) {
       auto fa = fac.find(U->unit_values[a]), fb = fac.find(U->unit_values[b]);
       if (fa == fac.end() || fb == fac.end()) continue;
       const Factor &A = fa->second, &B = fb->second;
       const Q stdv = (Q)x * A.F + A.O, exact = (stdv - B.O) / B.F;
       if (!in_normal_range(nt, stdv) || !in_normal_range(nt, exact) || !in_normal_range(nt, (Q)x)) continue;
-      const LD got = U->convert_static(x, kind, u);
+      const LD got = U->convert_static(x, a, b);
       const LD dyn = U->convert(x, a, b);
       evals++; if (a != b && x != 0) nontriv++;
-      if (!same_bits(nt, got, dyn))
-        return Verdict::fail(fmt("%s: ConvertStatically<%s -> %s>(%s) in %s = %s differs from the run-time Convert = %s", U->name, U->unit_names[a], U->unit_names[b], hexld(x).c_str(), ntinfo(nt).name, hexld(got).c_str(), hexld(dyn).c_str()));
+      if (a != U->standard && b != U->standard && a != b) neither_standard++;
       Q scale = fabsq(exact);
       if (A.affine || B.affine) { Q s2 = fabsq((Q)x * A.F / B.F), s3 = fabsq(A.O / B.F), s4 = fabsq(B.O / B.F); if (s2 > scale) scale = s2; if (s3 > scale) scale = s3; if (s4 > scale) scale = s4; }
-      else if (x == 0) { if (got != 0) return Verdict::fail(fmt("%s: ConvertStatically<%s -> %s>(0) = %s", U->name, U->unit_names[a], U->unit_names[b], hexld(got).c_str())); continue; }
+      if (!(A.affine || B.affine) && x == 0) { if (got != 0) return Verdict::fail(fmt("%s: ConvertStatically<%s -> %s>(0) = %s", U->name, U->unit_names[a], U->unit_names[b], hexld(got).c_str())); continue; }
+      // C02: the compile-time and the run-time entry points agree to within one ulp (on the pinned tree they are bit-identical: counted as a class)
+      if (!same_bits(nt, got, dyn)) {
+        bitdiff++;
+        const double d = err_ulps(nt, got, (Q)dyn, scale);
+        if (!(d <= 1.0))
+          return Verdict::fail(fmt("%s: ConvertStatically<%s -> %s>(%s) in %s = %s differs from the run-time Convert = %s by %.3g ulp (allowed 1)", U->name, U->unit_names[a], U->unit_names[b], hexld(x).c_str(), ntinfo(nt).name, hexld(got).c_str(), hexld(dyn).c_str(), d));
+      }
       double e = err_ulps(nt, got, exact, scale);
       if (!(e <= kTolPair))
         return Verdict::fail(fmt("%s: ConvertStatically<%s -> %s>(%s) in %s returned %s, symbols imply %s: %.3g ulp off (allowed %.0f)", U->name, U->unit_names[a], U->unit_names[b], decld(x).c_str(), ntinfo(nt).name, decld(got).c_str(), qstr(exact).c_str(), e, kTolPair));
     }
   }
+  if (neither_standard) v.cls += ";pairs-without-the-standard-unit";
+  v.cls += bitdiff ? ";static-within-1ulp-of-run-time" : ";static-bit-equal-to-run-time";
   v.sub_evals = evals; v.sub_nontrivial = nontriv; v.nontrivial = nontriv > 0;
   if (evals == 0) return Verdict::skip("all-out-of-range");
   return v;
@@ -194,7 +244,13 @@ static Verdict check_containers(const Case& c) {
   const VfUnitType* U = utype(nt, k);
   int from = (int)(c.i[4] % U->n), to = (int)(c.i[5] % U->n);
   int n = shape == 0 ? 1 : shape == 1 ? 1 + (int)(c.i[6] % 9) : shape == 2 ? (int)(c.i[6] % 18) : shape == 3 ? 2 : shape == 4 ? 3 : shape == 5 ? 6 : 9;
-  if (form == 2) { if (shape == 1) n = 3; if (c.i[6] % 2) from = U->standard; else to = U->standard; }
+  if (form == 2) {
+    // compile-time forms are instantiated for: to == standard, from == standard, to == from + {0, 1, 2} (cyclic)
+    if (shape == 1) n = 3;
+    if (shape == 2) return Verdict::skip("form-not-applicable");
+    const int mode = (int)(c.i[6] % 5);
+    if (mode == 0) from = U->standard; else if (mode == 1) to = U->standard; else to = (from + (mode - 2)) % U->n;
+  }
   std::vector<LD> in(c.r.begin(), c.r.begin() + n), out((size_t)n + 1), after((size_t)n + 1);
   const int got = U->convert_container(shape, form, in.data(), n, from, to, out.data(), after.data());
   if (got == -1) return Verdict::skip("form-not-applicable");
@@ -211,6 +267,7 @@ static Verdict check_containers(const Case& c) {
     if (!(e <= 1.0)) return Verdict::fail(what + fmt(": slot %d is %s, the scalar Convert of that slot (%s) gives %s (%.3g ulp, allowed 1)", i, hexld(out[(size_t)i]).c_str(), hexld(in[(size_t)i]).c_str(), hexld(ref).c_str(), e));
   }
   Verdict V; V.cls = std::string(ntinfo(nt).name) + ";" + kShape[shape] + ";" + kForm[form] + (bitequal == checked ? ";bit-equal" : ";within-1ulp");
+  if (form == 2 && from != U->standard && to != U->standard && from != to) V.cls += ";neither-unit-standard";
   bool distinct = true; for (int i = 0; i < n; i++) for (int j = i + 1; j < n; j++) if (in[(size_t)i] == in[(size_t)j]) distinct = false;
   V.nontrivial = n >= 2 && distinct && from != to;
   V.show = what;
@@ -258,7 +315,7 @@ int main(int argc, char** argv) {
     Sub s; s.name = "c01.static"; s.property = "C01"; s.instances = ntypes * 3; s.n_quick = 100; s.n_thorough = 3000;
     s.gen = [ntypes](int inst) { return gen_case(inst, ntypes); };
     s.run = check_static; s.instance_name = iname;
-    s.rule = "ConvertStatically<U, From, To> for every declared unit u: u->standard, standard->u, u->next(u), against the symbol oracle (<= 8 ulp) and bit-for-bit against the run-time Convert; non-trivial: from != to, x != 0";
+    s.rule = "ConvertStatically<U, From, To> for ALL ordered pairs of declared units (14232 instantiations per numeric type), against the symbol oracle (<= 8 ulp) and within 1 ulp of the run-time Convert (C02; bit-equal on the pinned tree); non-trivial: from != to, x != 0";
     subs.push_back(s);
   }
   {
@@ -274,7 +331,7 @@ int main(int argc, char** argv) {
     s.gen = [ntypes](int inst) { const int k = inst % ntypes, nt = inst / ntypes; const int w = nt == 0 ? 12 : 100;
       return rc::gen::map(rc::gen::tuple(irange(0, 6), irange(0, 2), irange(0, 1000), irange(0, 1000), irange(0, 1000), gen_reals(18, nt, -w, w, kNeg | kZero)),
                           [=](const std::tuple<int, int, int, int, int, std::vector<LD>>& t) { Case c; c.i = {k, nt, std::get<0>(t), std::get<1>(t), std::get<2>(t), std::get<3>(t), std::get<4>(t)}; c.r = std::get<5>(t); return c; }); };
-    s.rule = "every unit type x numeric type; generated: container shape (scalar in place, std::array<1..9>, std::vector of 0..17 elements, PlanarVector, Vector, SymmetricDyad, Dyad), form (copying, in-place, compile-time), unit pair and "
+    s.rule = "every unit type x numeric type; generated: container shape (scalar in place, std::array<1..9>, std::vector of 0..17 elements, PlanarVector, Vector, SymmetricDyad, Dyad), form (copying, in-place, compile-time: scalar / array / tensors with to or from the standard unit or to the unit itself and its next two neighbours), unit pair and "
              "distinct slot values; oracle: every slot within 1 ulp of (normally bit-equal to) the plain scalar Convert of that slot, the number of values is preserved, copying forms leave their argument bitwise unchanged; "
              "non-trivial: >= 2 distinct slots and from != to";
     subs.push_back(s);
@@ -284,6 +341,21 @@ int main(int argc, char** argv) {
     s.gen = [ntypes](int inst) { return gen_case(inst, ntypes); };
     s.rule = "value level: for every unit type x numeric type and each of the 4 systems, a generated value in the system's consistent unit converts to / from the standard unit (through the library's own conversion) by exactly "
              "L^a M^b T^c Theta^d of the system's base units (exact rationals from the system's abbreviation, __float128) within 4 ulp; non-trivial: factor != 1 and x != 0";
+    subs.push_back(s);
+  }
+  {
+    Sub s; s.name = "c07.lookups"; s.property = "C07"; s.instances = ntypes; s.n_quick = 300; s.n_thorough = 20000; s.run = check_lookups;
+    s.instance_name = [](int inst) { return std::string(utype(0, inst)->name); };
+    s.gen = [ntypes](int inst) {
+      // a history of 3..14 lookups on this unit type and a second one; arguments are drawn from a small pool so that repeats and hit-after-miss patterns are frequent
+      return rc::gen::map(rc::gen::tuple(irange(0, ntypes - 1), irange(3, 14), rc::gen::container<std::vector<int>>(4, irange(0, 1000)), rc::gen::container<std::vector<int>>(42, irange(0, 1000))),
+                          [=](const std::tuple<int, int, std::vector<int>, std::vector<int>>& t) {
+                            Case c; c.i = {inst, std::get<0>(t) % 3 == 0 ? std::get<0>(t) : inst};
+                            const std::vector<int>& pool = std::get<2>(t); const std::vector<int>& r = std::get<3>(t);
+                            for (int j = 0; j < std::get<1>(t); j++) { c.i.push_back(r[(size_t)(3 * j)]); c.i.push_back(r[(size_t)(3 * j + 1)]); c.i.push_back(r[(size_t)(3 * j + 2)] % 3 == 0 ? r[(size_t)(3 * j + 2)] : pool[(size_t)(r[(size_t)(3 * j + 2)] % 4)]); }
+                            return c; }); };
+    s.rule = "histories of 3..14 RelatedUnitSystem / ConsistentUnit lookups on one or two unit types with arguments drawn from a small pool (repeats, hits after misses, alternating types); oracle: every lookup returns what the "
+             "single-lookup table of a fresh process (validated exhaustively by symx against the statement) returns; non-trivial: a repeated argument and a hit directly after a miss on the same unit type";
     subs.push_back(s);
   }
   return engine_main(argc, argv, subs);
